@@ -437,6 +437,23 @@ def check_tree(chk, t, st, ir, parse):
     if back is not None:
         compare("reparse", back, "C16:reparse:" + _ops(t))
         # the deserialised dimension evaluates like the original
+    # 3b. with every symbol bound the result is a plain integer (also when all symbols cancelled while building)
+    for full in ({"N": 1, "M": 1}, {"N": 3, "M": 2}):
+        want_v = ref_exact(t, full)
+        if want_v is None or want_v.denominator != 1:
+            continue
+        chk.obligations += 1
+        try:
+            got_v = d.evaluate(dict(full))
+        except Exception as ex:  # noqa: BLE001
+            chk.violation("C16:complete:raises", f"{label}: evaluate({full}) raised {type(ex).__name__}: {ex}", dict(kind="complete", tree=t, binding=full))
+            continue
+        if isinstance(got_v, ir.SymbolicDim) or not isinstance(got_v, int):
+            chk.violation("C16:complete:not-an-int", f"{label}: evaluate({full}) with every symbol bound returned {got_v!r} instead of the integer {int(want_v)}", dict(kind="complete", tree=t, binding=full))
+        elif got_v != want_v:
+            chk.violation("C16:complete:value", f"{label}: evaluate({full}) = {got_v}, exact value {want_v}", dict(kind="complete", tree=t, binding=full))
+        else:
+            chk.discharged += 1
     # 4. partial binding then complete binding
     if "N" in d.free_symbols() and "M" in d.free_symbols():
         for k in (1, 2, 5):
@@ -693,6 +710,14 @@ def trees_for(tier):
         core = [t for t in depth1(False) if t[0] in ("+", "-", "//", "%", "/", "*")]
         for b in ("+", "-", "//", "%", "*", "min"):
             out += [(b, s, t) for s in core[::3] for t in core[::4]]
+    # rounding of a quotient whose divisor is a difference/sum of dimensions (not sign-definite): depth 3
+    for u in ("floor", "ceil", "trunc"):
+        for q in ("/", "//"):
+            for a in (("sym", "N"), ("int", 7)):
+                for inner_op in ("-", "+"):
+                    for b_, c_ in ((("sym", "M"), ("sym", "N")), (("sym", "M"), ("int", 3)), (("int", 2), ("sym", "M")), (("sym", "N"), ("sym", "M"))):
+                        if u in UNARY and q in BINARY and inner_op in BINARY:
+                            out.append((u, (q, a, (inner_op, b_, c_))))
     # de-duplicate
     seen, uniq = set(), []
     for t in out:
